@@ -76,12 +76,51 @@ func fullNodeList(r *rand.Rand, ids []string, o gen.PopOpts) *sbom.NodeList {
 	return spareList(nl)
 }
 
+// c12Targets: target lists of every shape an edge value can hold - repeated, unsorted, self-referential, empty.
+func c12Targets(r *rand.Rand) []string {
+	switch r.Intn(6) {
+	case 0:
+		return []string{"b", "c", "b"}
+	case 1:
+		return []string{"d", "b", "c", "d", "d"}
+	case 2:
+		return []string{"a"}
+	case 3:
+		return []string{}
+	case 4:
+		return []string{"c", "b", ""}
+	}
+	return []string{"b", "c", "d"}[:1+r.Intn(3)]
+}
+
+// c12RawList: a list as a decoder or a caller may hand it over - repeated targets, several edge records per
+// source and type, self loops, dangling targets and roots, repeated roots (copies must still equal their source).
+func c12RawList(r *rand.Rand, ids []string, o gen.PopOpts) *sbom.NodeList {
+	nl := &sbom.NodeList{}
+	for _, id := range ids {
+		nl.Nodes = append(nl.Nodes, gen.Node(r, id, o))
+	}
+	n := 1 + r.Intn(5)
+	for i := 0; i < n; i++ {
+		var to []string
+		for j := 0; j < r.Intn(4); j++ {
+			to = append(to, gen.Pick(r, append([]string{"zz"}, ids...)))
+		}
+		if len(to) > 0 && r.Intn(2) == 0 {
+			to = append(to, to[0])
+		}
+		nl.Edges = append(nl.Edges, &sbom.Edge{From: gen.Pick(r, ids), Type: gen.Pick(r, []sbom.Edge_Type{sbom.Edge_contains, sbom.Edge_dependsOn}), To: to})
+	}
+	nl.RootElements = []string{ids[len(ids)-1], ids[0], ids[len(ids)-1], "zz"}[:1+r.Intn(4)]
+	return spareList(nl)
+}
+
 var c12Types = []c12Type{
 	{"Node", func(r *rand.Rand) proto.Message { n := gen.Node(r, "n", fullPop()); spareNode(n); return n },
 		func(m proto.Message) proto.Message { return m.(*sbom.Node).Copy() },
 		func(a, b proto.Message) (bool, bool) { return a.(*sbom.Node).Equal(b.(*sbom.Node)), true }},
 	{"Edge", func(r *rand.Rand) proto.Message {
-		return &sbom.Edge{From: "a", Type: sbom.Edge_Type(1 + r.Intn(44)), To: spare([]string{"b", "c", "d"}[:1+r.Intn(3)])}
+		return &sbom.Edge{From: gen.Pick(r, []string{"a", "a", "", "b"}), Type: sbom.Edge_Type(gen.Pick(r, []int{1 + r.Intn(44), 0, 45, 1000, -1})), To: spare(c12Targets(r))}
 	},
 		func(m proto.Message) proto.Message { return m.(*sbom.Edge).Copy() },
 		func(a, b proto.Message) (bool, bool) { return a.(*sbom.Edge).Equal(b.(*sbom.Edge)), true }},
@@ -99,7 +138,12 @@ var c12Types = []c12Type{
 	},
 		func(m proto.Message) proto.Message { return m.(*sbom.ExternalReference).Copy() },
 		func(a, b proto.Message) (bool, bool) { return false, false }},
-	{"NodeList", func(r *rand.Rand) proto.Message { return fullNodeList(r, []string{"a", "b", "c"}, fullPop()) },
+	{"NodeList", func(r *rand.Rand) proto.Message {
+		if r.Intn(2) == 0 {
+			return c12RawList(r, []string{"a", "b", "c"}, fullPop())
+		}
+		return fullNodeList(r, []string{"a", "b", "c"}, fullPop())
+	},
 		func(m proto.Message) proto.Message { return m.(*sbom.NodeList).Copy() },
 		func(a, b proto.Message) (bool, bool) { return a.(*sbom.NodeList).Equal(b.(*sbom.NodeList)), true }},
 }
